@@ -76,6 +76,120 @@ type BloomOut struct {
 	Atoms   []BAtomObs `json:"atoms"` // in left-to-right order of the condition
 	Oracle  []string   `json:"oracle"`
 	Nontriv bool       `json:"nontrivial"`
+	Tok     *TokObs    `json:"tok,omitempty"`
+}
+
+// TokObs ties the Coq model of the tokenizers (coq/C20/TokModel.v) to the real ones on the strings of the case.
+type TokObs struct {
+	// values: bytes, the byte-level tokens (maximal runs of non-split bytes, computed by the harness the way TokModel.tokens
+	// is defined), RealOK = the real SimpleTokenizer yields exactly the hashes of these tokens, in order; WriterBytewise = the
+	// filter data GenBloomFilterData writes for the value alone equals the data SimpleTokenizer.ProcessTokenizerBatch writes
+	Vals []TokVal `json:"vals"`
+	// (phrase, value, real SimpleTokenFinder result)
+	Pairs []TokPair `json:"pairs"`
+}
+type TokVal struct {
+	V              []int   `json:"v"`
+	Toks           [][]int `json:"toks"`
+	RealOK         bool    `json:"realok"`
+	WriterBytewise bool    `json:"writerbytewise"`
+	ASCII          bool    `json:"ascii"`
+}
+type TokPair struct {
+	P []int `json:"p"`
+	V []int `json:"v"`
+	M bool  `json:"m"`
+}
+
+func bytesOf(s string) []int {
+	r := make([]int, 0, len(s))
+	for _, b := range []byte(s) {
+		r = append(r, int(b))
+	}
+	return r
+}
+
+func tokProbe(in *BloomIn) *TokObs {
+	ob := &TokObs{Vals: []TokVal{}, Pairs: []TokPair{}}
+	table := tokenizer.CONTENT_SPLIT_TABLE
+	seen := map[string]bool{}
+	var vals []string
+	for _, col := range [][]*string{in.Content, in.Source} {
+		for _, v := range col {
+			if v != nil && !seen[*v] && len(vals) < 8 {
+				seen[*v] = true
+				vals = append(vals, *v)
+			}
+		}
+	}
+	hashSeq := func(s string) []uint64 {
+		tk := tokenizer.NewSimpleTokenizer(table)
+		tk.InitInput([]byte(s))
+		var hs []uint64
+		for tk.Next() {
+			hs = append(hs, tk.CurrentHash())
+		}
+		return hs
+	}
+	for _, v := range vals {
+		tv := TokVal{V: bytesOf(v), Toks: [][]int{}, ASCII: true}
+		var toks []string
+		b := []byte(v)
+		for pos := 0; pos < len(b); {
+			for pos < len(b) && table[b[pos]] > 0 {
+				pos++
+			}
+			st := pos
+			for pos < len(b) && table[b[pos]] == 0 {
+				pos++
+			}
+			if pos > st {
+				toks = append(toks, string(b[st:pos]))
+			}
+		}
+		for _, x := range b {
+			if x >= 0x80 {
+				tv.ASCII = false
+			}
+		}
+		real := hashSeq(v)
+		tv.RealOK = len(real) == len(toks)
+		for i, t := range toks {
+			tv.Toks = append(tv.Toks, bytesOf(t))
+			one := hashSeq(t)
+			if tv.RealOK && (len(one) != 1 || one[0] != real[i]) {
+				tv.RealOK = false
+			}
+		}
+		// what the writer inserts for this value alone
+		var col record.ColVal
+		col.AppendString(v)
+		p := guard(func() {
+			w := sparseindex.NewBloomFilterWriter("", "", "", "", tokenizer.CONTENT_SPLITTER)
+			data := w.GenBloomFilterData(&col, []int{1}, influx.Field_Type_String)
+			ref := make([]byte, len(data))
+			offs, lens := col.GetOffsAndLens()
+			tokenizer.NewSimpleTokenizer(table).ProcessTokenizerBatch(col.Val, ref[:len(ref)-4], offs, lens)
+			tv.WriterBytewise = string(ref[:len(ref)-4]) == string(data[:len(data)-4])
+		})
+		if p != "" {
+			tv.RealOK = false
+		}
+		ob.Vals = append(ob.Vals, tv)
+	}
+	n := 0
+	in.Cond.atoms(func(a *BCond) {
+		if a.Op != "match" {
+			return
+		}
+		for _, v := range vals {
+			if n < 12 {
+				ob.Pairs = append(ob.Pairs, TokPair{P: bytesOf(a.Lit), V: bytesOf(v), M: phraseMatches(v, a.Lit)})
+				n++
+			}
+		}
+	})
+	return ob
 }
 
 type tsspFile struct{ p string }
@@ -291,6 +405,9 @@ func runBloomCase(id int, in *BloomIn, work string) *BloomOut {
 			out.Err = err.Error()
 			return out
 		}
+	}
+	if !in.Vertical {
+		out.Tok = tokProbe(in)
 	}
 	var file interface{} = &tsspFile{p: dir + "/00000001-0001-00000001.tssp"}
 	if in.Vertical {
@@ -646,7 +763,13 @@ func probeMinMaxSet() {
 		ok, _ := st.MayBeInFragment(0)
 		res["set_maybe"] = strconv.FormatBool(ok)
 	}
-	gen.Emit(map[string]interface{}{"skprobe": res})
+	var sp []int
+	for b := 0; b < 256; b++ {
+		if tokenizer.CONTENT_SPLIT_TABLE[b] > 0 {
+			sp = append(sp, b)
+		}
+	}
+	gen.Emit(map[string]interface{}{"skprobe": res, "splitbytes": sp})
 }
 
 // genVerticalCase: exactly one vertical group (FilterCntPerVerticalGorup segments of one row), column content indexed.
